@@ -29,3 +29,8 @@ VARIANTS = [
     V("tb-tuple", B, "            tb = [input.seq, input.ts_sent, ts_recv, input.data]\n            ts_recv_interp", "            tb = (input.seq, input.ts_sent, ts_recv, input.data)\n            ts_recv_interp", expect="silent"),
     V("fields-by-name", B, "            delayed_input_state = InputState(*interp_tb, delay_dist=new_delay_dist)", "            _seq, _sent, _recv, _data = interp_tb\n            delayed_input_state = InputState(seq=_seq, ts_sent=_sent, ts_recv=_recv, data=_data, delay_dist=new_delay_dist)", expect="silent"),
 ]
+VARIANTS += [
+    V("out-axes-dropped", B, "                        out_axes=1,\n", "", rule="C11.axes"),
+    V("out-axes-zero", B, "                        out_axes=1,\n", "                        out_axes=0,\n", rule="C11.axes"),
+    V("in-axes-positional", B, "                        in_axes=(\n                            None,\n                            None,\n                            1,\n                        ),\n                        out_axes=1,\n", "                        (None, None, 1),\n                        1,\n", expect="silent"),
+]
